@@ -516,7 +516,36 @@ class FnTaint:
                         return "%s `%s` (%s edge) at %s" % (
                             why, cb.condsrc, "true" if outcome else "false",
                             self.fn.site(cb.tloc or ""))
+        g = self._switch_guard(lab, block, kinds)
+        if g:
+            return g
         return self._conditional_guard(lab, block, kinds, depth)
+
+    def _switch_guard(self, lab, block, kinds):
+        """`switch (x) { case A: case B: break; default: return false; }`:
+        the switch dominates the sink and its default edge never reaches it,
+        so x is pinned to the case set."""
+        if "G4" not in kinds and "G3" not in kinds:
+            return None
+        fn = self.fn
+        for cb in fn.blocks.values():
+            if cb.labels is None or cb.cond is None:
+                continue
+            if not fn.block_dominates(cb.id, block) or cb.id == block:
+                continue
+            if lab not in self.labels(cb.cond, cb.id):
+                continue
+            others = [s for s, l in zip(cb.succ, cb.labels) if s is not None and not isinstance(l, dict)]
+            cases = [l.get("case") for l in cb.labels if isinstance(l, dict)]
+            if not others or not cases:
+                continue
+            if any(block in fn.reachable(start=o) for o in others):
+                continue
+            if any(c is None or abs(c) > SMALL_CONST for c in cases):
+                continue
+            return "G4 switch over cases %s with rejecting default at %s" % (
+                sorted(set(cases)), fn.site(cb.tloc or ""))
+        return None
 
     def _conditional_guard(self, lab, block, kinds, depth):
         """A guard nested under a context condition P (`if (P) { if (x >= n)
